@@ -71,6 +71,26 @@ func subjectFn(variant int) func(ed25519.PublicKey) string {
 	}
 }
 
+// swapCase flips the case of the first letter it finds (of every letter when the subject is long)
+func swapCase(s string) string {
+	b := []byte(s)
+	n := 0
+	for i, c := range b {
+		switch {
+		case c >= 'a' && c <= 'z':
+			b[i] = c - 32
+			n++
+		case c >= 'A' && c <= 'Z':
+			b[i] = c + 32
+			n++
+		}
+		if n > 0 && len(s) < 12 {
+			break
+		}
+	}
+	return string(b)
+}
+
 func nonce(r *rand.Rand) string {
 	b := make([]byte, 16)
 	r.Read(b)
@@ -123,7 +143,13 @@ func accept(key int64, c acase, variant int) aobs {
 
 	stampSubj := subject
 	if !c.Subj {
-		switch r.Intn(4) {
+		switch r.Intn(5) {
+		case 4: // the expected subject in another letter case (base64 and host-like subjects are case sensitive)
+			stampSubj = swapCase(subject)
+			how = append(how, "subject-other-case")
+			if stampSubj == subject {
+				stampSubj = subject + "x"
+			}
 		case 0:
 			stampSubj = getSubject(pubB)
 			how = append(how, "subject-of-other-key")
